@@ -21,6 +21,7 @@ package oracle
 // unpack path: the library still round-trips, but it no longer reads / writes ISO 8583.
 
 import (
+	"bytes"
 	"fmt"
 	"strconv"
 	"strings"
@@ -1326,6 +1327,7 @@ func layCheckC03Msg(line, specStr, msgStr string, rep *Reporter) {
 			return
 		}
 		got, err := m.Pack()
+		layRemember(rep, line, got, err)
 		key := ""
 		if defined {
 			key = line
@@ -1402,6 +1404,7 @@ func layCheckC03Field(line, specStr, valStr string, rep *Reporter) {
 			return
 		}
 		got, err := f.Pack()
+		layRemember(rep, line, got, err)
 		key := ""
 		if defined {
 			key = line
@@ -1452,6 +1455,33 @@ func layCheckC03Field(line, specStr, valStr string, rep *Reporter) {
 	})
 }
 
+// the bytes a Pack returned belong to the caller: the last few results are kept, and a later Pack (of
+// another field, another message) must leave every one of them as it was
+type layKept struct {
+	line      string
+	got, copy []byte
+}
+
+var layKeptRing []layKept
+
+func layRemember(rep *Reporter, line string, got []byte, err error) {
+	for _, k := range layKeptRing {
+		if !bytes.Equal(k.got, k.copy) {
+			rep.Viol("bytes that an earlier Pack returned were changed by a later Pack: the layout of the earlier result no longer is what the spec defines", k.line,
+				fmt.Sprintf("returned %x, now %x (after %s)", k.copy, k.got, line))
+			layKeptRing = nil
+			return
+		}
+	}
+	if err != nil || len(got) == 0 {
+		return
+	}
+	layKeptRing = append(layKeptRing, layKept{line, got, append([]byte{}, got...)})
+	if len(layKeptRing) > 12 {
+		layKeptRing = layKeptRing[1:]
+	}
+}
+
 func layRunC03(t gen.Tier, rng *gen.Rng, rep *Reporter) {
 	for k := range layC03Stats {
 		delete(layC03Stats, k)
@@ -1471,6 +1501,22 @@ func layRunC03(t gen.Tier, rng *gen.Rng, rep *Reporter) {
 			rep.Sample(line + " => Pack bytes = reference layout; reference bytes unpack to the canonical content and re-pack to themselves")
 		}
 	})
+	// the layout of a field is the layout of the value it holds NOW (two writes through two writers)
+	{
+		gw := gen.NewFieldGen(rng)
+		for i := 0; i < t.N(1200, 20000); i++ {
+			spec := gw.Prim(false)
+			if hasNonePrefix(spec) {
+				continue
+			}
+			gw.OutOfDomain = false
+			v1, v2 := gw.Value(spec, false), gw.Value(spec, false)
+			if gw.OutOfDomain {
+				continue
+			}
+			checkOverwriteHistory(rep, rng, spec, v1, v2)
+		}
+	}
 	keys := make([]string, 0, len(layC03Stats))
 	for k := range layC03Stats {
 		keys = append(keys, k)
